@@ -13,7 +13,7 @@ from tfv.ref import RefInputError, coerce_argument_values, coerce_variable_value
 ID = "C04"
 LEVEL = "exploration"
 WORKERS = {"quick": 8, "thorough": 16}
-CASES = {"quick": 120000, "thorough": 2000000}  # requests
+CASES = {"quick": 90000, "thorough": 2000000}  # requests
 BUDGET = {"quick": 50, "thorough": 540}
 REQUESTS_PER_ENGINE = 40
 RULE = (
@@ -22,7 +22,9 @@ RULE = (
     "and a provided value in {absent, null, canonical valid value, every single-position corruption of it, random JSON}, plus "
     "undeclared extra variables; each variable is used as a whole argument of an echo field. Oracle = reference CoerceVariableValues: "
     "refusal (data null, zero resolver calls, every offending variable named) exactly when the reference rejects, else the "
-    "resolvers observe exactly the reference's coerced dictionaries. Distinct = SHA-1 of (types, defaults, provided values); "
+    "resolvers observe exactly the reference's coerced dictionaries. Input objects / enums may be spelled as definition + `extend` "
+    "block in the SDL; several requests per engine, and the dictionaries handed to resolvers are modified in place after each request "
+    "(nothing of that may reach a later one). Distinct = SHA-1 of (types, defaults, provided values); "
     "non-trivial = coercion involved a single-value list wrap, an injected default, or an accept/reject decision at depth >= 2."
 )
 ASSUMPTIONS = ["integral floats for Int/ID are transport-dependent: accepted either way, but if accepted the delivered value must be the equal int/str"]
